@@ -35,7 +35,7 @@ def context(obs):
     return "none"
 
 
-def make_sweep(P, oracle, *, plans, kinds=KINDS, decisions=DECISIONS, two=False, faults=False, re_kwargs=None, extra=None, goals_fn=None):
+def make_sweep(P, oracle, *, plans, kinds=KINDS, decisions=DECISIONS, two=False, faults=False, re_kwargs=None, extra=None, goals_fn=None, ctx=False):
     """Returns the harness function.  oracle(obs, case) -> list of tags."""
     Ts = [plan_T(p, re_kwargs=re_kwargs) for p in plans]
 
@@ -76,7 +76,9 @@ def make_sweep(P, oracle, *, plans, kinds=KINDS, decisions=DECISIONS, two=False,
             if goals_fn:
                 goals_fn(obs, case)
             std_goals(obs)
-            return ";".join(sorted(set(f"{t}@{case['ctx']}" for t in tags)))
+            if ctx:
+                tags = [f"{t}@{case['ctx']}" for t in tags]
+            return ";".join(sorted(set(tags)))
 
     return h
 
